@@ -24,8 +24,15 @@ def set_threads(n):
     os.environ["YAW_NUM_THREADS"] = str(int(n))
 
 
+# parent folders the scratch caches are placed under: names that look like the library's own files and patch folders,
+# so that anything derived from the spelling of a cache path (rather than from the patch folder's own name) shows
+_PATH_SHAPES = ["", "npatch_8", "patch_3", "run.patch_12.d", "patch_ids.bin", "trees.pkl", "meta.yml", "patch_0", "binning"]
+
+
 def fresh_dir(ctx, name):
-    d = os.path.join(ctx.workdir, name)
+    import zlib
+    shape = _PATH_SHAPES[zlib.crc32(name.encode()) % len(_PATH_SHAPES)]
+    d = os.path.join(ctx.workdir, shape, name)
     shutil.rmtree(d, ignore_errors=True)
     os.makedirs(os.path.dirname(d), exist_ok=True)
     return d
